@@ -113,6 +113,11 @@ ExtProps ==
       /\ (DL(la, lb) <=> la = lb)
       /\ (IsProperPrefix(la, lb) => ~DL(la, lb) /\ ~DL(lb, la))           \* the shorter list first, and the longer list first
       /\ (Len(la) # Len(lb) => ~DL(la, lb))
+      \* the clauses on ALL records (Dup!LawOK, judged on records without a wire form): the relation of this module satisfies
+      \* them; an asymmetric answer, a record that is no duplicate of itself or of its copy do not
+      /\ LawOK(la, lb, DL(la, lb), DL(lb, la), DL(la, la), DL(la, la))
+      /\ ~LawOK(la, lb, TRUE, FALSE, TRUE, TRUE) /\ ~LawOK(la, lb, DL(la, lb), DL(la, lb), FALSE, TRUE) /\ ~LawOK(la, lb, DL(la, lb), DL(la, lb), TRUE, FALSE)
+      /\ (la = lb => ~LawOK(la, lb, FALSE, FALSE, TRUE, TRUE))
     ELSE
       LET h == x[2]  a == HdrA(h)  b == HdrB(h) IN
       /\ WFWire(a) /\ WFWire(b)
